@@ -514,6 +514,74 @@ def multi_subscripts(quick=True):
                         yield "multi", renumber(("multi", L(kind(wi)), (a, b, c)))
 
 
+def select_aliases():
+    """select_with whose dictionary contains several python keys denoting the same selector value (int / str /
+    typed constant spellings): the first matching key wins.  Every selector value, every ordered pair of
+    spellings, with and without other keys in front, with default and with complete coverage"""
+    T = u(2)
+    for ta in (u(2), u(1), bv(2), s(2), BIT):
+        spell = ["str", "typed"] + (["int"] if ta[0] == "u" else [])
+        if ta == BIT:
+            spell = ["str", "typed"]
+        dom = list(V.domain(ta))
+        for v in dom:
+            for s1 in spell:
+                for s2 in spell:
+                    if s1 == s2:
+                        continue
+                    k1, k2 = ("alias", s1, v), ("alias", s2, v)
+                    other = [x for x in dom if x != v]
+                    yield "selalias", ("sel", L(ta), ((k1, L(T)), (k2, L(T))), L(T))
+                    yield "selalias", ("sel", L(ta), ((("alias", s1, other[0]), L(T)), (k1, L(T)), (k2, L(T))), L(T))
+                    if len(dom) == 2:
+                        yield "selalias", ("sel", L(ta), ((k1, L(T)), (k2, L(T)), (("alias", s1, other[0]), L(T))), None)
+                    yield "selalias", ("sel", L(ta), ((k1, L(BIT)), (k2, L(BIT))), L(BIT))
+
+
+def const_pairs():
+    """operations whose operands are ALL typed constants (the emitted logic is the folded literal): sub, mul,
+    truncdiv, mod, rem over every Unsigned/Signed constant pair of width 2 and the pairs over
+    {0, 1, max positive, min, -1 / all ones} of width 3, plus the comparisons < and =="""
+    for kind in (u, s):
+        for w, vals in ((2, range(4)), (3, (0, 1, 3, 4, 7))):
+            for a in vals:
+                for b in vals:
+                    ca, cb = C(kind(w), a), C(kind(w), b)
+                    for op in ("sub", "mul", "tdiv", "mod", "rem"):
+                        yield "constpair", ("bin", op, ca, cb)
+                    yield "constpair", ("cmp", ("lt",), (ca, cb))
+
+
+ITER_CONSUMERS = ("reverse", "stretch2", "anycomp", "allstar", "catnot")
+
+
+def iter_chains(quick=True, consumers=ITER_CONSUMERS):
+    """iteration consumers over nested constant slices (chain length 2..3, every (hi, lo) pair at every level,
+    plus msb(n)/lsb(n) chains) of one root object"""
+    root = bv(4) if quick else bv(5)
+    chains = []
+    for t in _slice_ext(L(root), root[1], 3, False):
+        if t[0] == "slice" and t[1][0] == "slice":
+            chains.append(t)
+    for t in _slice_ext(L(root), root[1], 3 if not quick else 2, "count"):
+        if t[0] == "part" and t[2][0] == "part" and V.typeof(t) != BIT:
+            chains.append(t)
+    for kind in (u, s):
+        r2 = kind(4)
+        for t in _slice_ext(L(r2), 4, 2, False):
+            if t[0] == "slice" and t[1][0] == "slice":
+                chains.append(t)
+    main = set(c for c in ("reverse", "catnot", "anycomp") if c in consumers)
+    for n, t in enumerate(chains):
+        for c in consumers:
+            # quick: all consumers on the length-2 slice chains of the BitVector root, three of them elsewhere
+            if quick and c not in main and not (t[1][1][0] == "in" and V.typeof(t[1][1])[0] == "bv" and t[0] == "slice"):
+                continue
+            if quick and c == "catnot" and t[0] == "part":
+                continue
+            yield "iter", ("iter", c, t)
+
+
 SRC_KINDS = ("always", "alwaysblock", "localsig", "localvar", "fn")
 
 
@@ -746,7 +814,7 @@ def _children(n):
         return [n[1]]
     if k == "conv":
         return [n[3]]
-    if k == "src":
+    if k in ("src", "iter"):
         return [n[2]]
     if k == "multi":
         return [n[1]]
@@ -807,6 +875,15 @@ def const_text(t, v):
 
 def key_text(t, v):
     """a select_with key for an argument of type t"""
+    if isinstance(v, tuple) and v and v[0] == "alias":
+        sp, val = v[1], v[2]
+        if sp == "int":
+            return str(val)
+        if sp == "typed":
+            return const_text(t, val)
+        if sp == "str":
+            return f'"{val:0{V.width(t)}b}"'
+        raise ValueError(sp)
     if t == BIT:
         return f"Bit({v})"
     if t == BOOL:
@@ -825,6 +902,11 @@ def render(node, leaf, mode="hw", prelude=None):
     statements that have to precede the expression (variable assignment form of conversions)."""
     k = node[0]
     R = lambda n: render(n, leaf, mode, prelude)  # noqa
+    if k == "iter":
+        X = R(node[2])
+        return {"reverse": f"std.reverse_bits({X})", "stretch2": f"std.stretch({X}, 2)",
+                "anycomp": f"any([b_ for b_ in {X}])", "allstar": f"all([*{X}])",
+                "catnot": f"std.concat(*[~b_ for b_ in {X}])"}[node[1]]
     if k == "multi":
         parts = ", ".join(str(p_[1]) if p_[0] == "i" else f"{p_[1]}:{p_[2]}" for p_ in node[2])
         return f"{R(node[1])}[{parts}]"
